@@ -6,14 +6,17 @@ NOTE = "Trusted: go/types+go/ssa, the govc VC generator, the SMT solvers, assume
 checks = {
  "C06": ("Deductive safety sweep, for all inputs, over every function declared in the server-side files (424 functions): each single-result type assertion, channel close, send, and map-entry write is an obligation discharged from contracts and type invariants (maps created by constructors are final and non-nil); values decoded by encoding/json are unconstrained dynamic types, so 'any JSON type in any field' is decided for the whole type lattice at once. Plus lock obligations (no self-deadlock: Lock only when not held, Unlock only when held, every function and every loop iteration lock-balanced) and reader-loop obligations for the stdio server (each iteration consumes a line; the loop is left only when the input or the context ended). Not decided: goroutine leaks, resource exhaustion, deadlocks between goroutines, that HTTP answers are error statuses (C03).", "DESIGN.md section 3, C06"),
  "C07": ("Deductive safety sweep over every function of the client-side files (186 functions): type assertions on decoded values, channel closes (the endpoint latch is closed only behind its atomic flag; pending response channels are closed only by their owning call), map writes; reader-loop obligations for the stdio read loop, the legacy SSE reader, the POST-SSE response reader and the listening-stream reader: every iteration consumes input (no spinning), the loop is left only on end of input / context / close, and no bufio.Scanner with a small token limit reads a protocol stream. Not decided: CPU time, that the affected call returns an error (C08), Close 'still succeeds' beyond not panicking.", "DESIGN.md section 3, C07"),
+ "C09": ("Frame atomicity as a lock discipline, proved for every function that touches the declared fields: the writer/flusher/responder of a listening stream (getSSEConnection) and of an sseStream are accessed only with the stream's lock held; the three writer goroutines of a legacy SSE session (event queue, keep-alive, notifications) write and flush only with session.writeMu held (assertion before each write call; a contract whose call site disappeared is reported as stale); the stdio server writes each message with exactly one Write call made under the transport's output lock. Not decided: frame *shape* for all payloads (that marshalled JSON has no raw newline is encoding/json's), the POST-SSE response writer (confined to the request goroutine), interleavings themselves.", "DESIGN.md section 3, C09"),
+ "C12": ("Deductive proof per registry operation: every access to tools/prompts/resources/templates/subscribers/notification-handler maps happens with the owning mutex held in the right mode (guarded-access obligations over the whole module, including map operations on values loaded from the fields); registerTool, getTool, getTools, unregisterTools, registerPrompt, registerResource make exactly one lock acquisition (one critical section = atomic replace / one snapshot); registerTool leaves every other entry untouched and installs tool and handler with one map store; getTool finds exactly the present names; list results have no more entries than the registry (map-iteration counter); getPrompts/getResources return one entry per registered item; the resource order slice only holds registered uris (type invariant). Not decided: linearizability under real schedules, unregisterTools' in-place splice of toolsOrder (outside the append-as-copy subset).", "DESIGN.md section 3, C12"),
  "C15": ("Deductive proof for every middleware slice: applyMiddlewares returns chain(ms, core, 0) with chain(k) = ms[k](chain(k+1)) (recursive spec function, loop invariant) - index 0 outermost, each middleware applied exactly once; handleRequest hands exactly that chain, built around this request's own core closure, to a single invocation (ghost call counter), the core dispatches exactly once, and without middlewares dispatch is direct; use appends in call order and keeps earlier entries. Not decided: that a middleware error becomes -32603 in each transport wrapper (seed C15-2 is a known gap), option ordering through WithMiddleware/initComponents, behaviour of user middlewares.", "DESIGN.md section 3, C15"),
+ "C20": ("Race freedom as a discipline: every field of the long-lived shared structs that is mutated after construction is declared guarded by a mutex (or is a sync/atomic cell), every other declared field is final; the check proves, for all 123 functions that touch them, lock held in the right mode at every access (including map/slice operations on loaded values) and no store to a final field outside constructors. Known findings (confirmed with go test -race): the Streamable HTTP client's sessionID/lastEventID/isStateless/enableGetSSE and Client.initialized/state are plain fields written after construction. Not decided: fields not declared (hb-by-channel hand-offs such as sseConn.bodyClose), races inside dependencies.", "DESIGN.md section 3, C20"),
  "C16": ("Deductive proof for all inputs: selectSupportedVersion returns the requested version iff it is supported, else the default, never an unsupported one (loop invariant + type invariant default in supported, established by the constructor, fields final); handleInitialize answers with that version, the configured name/version, the tools capability always and prompts/resources exactly when the registries are non-empty (chain of contracts through updateCapabilities, convertToServerCapabilities, buildInitializeResponse, getPrompts, getResources); malformed params give -32602 with the request id. Client and StdioClient: type invariant initialized <=> state==Initialized, second handshake refused without a transport operation, failed handshake leaves Disconnected/uninitialized, Close resets, every operation before the handshake fails with zero transport operations (ghost counter), and only Initialize/Close/setState may write the state fields (frame obligation over the whole module). Not decided: behaviour under concurrent use of one client (C20).", "DESIGN.md section 3, C16"),
  "C17": ("Deductive proof, for all inputs and all loop iterations, of contracts on retry.Config.Validate (every configuration incl. NaN/Inf/negative is clamped into the documented ranges; identity on valid configurations; idempotence as a lemma over the contract), retry.Execute (at most MaxRetries+1 attempts, a re-attempt only after IsRetryableError, exactly one attempt without retries, the value handed to time.After is in [0,MaxBackoff] and equals trunc(Initial*Factor^(k-1)) below the cap, float->Duration conversion in range) and IsRetryableError(nil). Not decided: wall-clock timing and classification of real net/http error texts.", "DESIGN.md section 3, C17"),
 }
 na = {
  "C18": "schema generation is a reflective walk whose meaning is fixed by kin-openapi and encoding/json; no contract within reach can state it (DESIGN.md section 4)",
 }
-not_built = ["C01","C02","C03","C04","C05","C08","C09","C10","C11","C12","C13","C14","C19","C20"]
+not_built = ["C01","C02","C03","C04","C05","C08","C10","C11","C13","C14","C19"]
 m = {
  "version": 1,
  "setup_cmd": "cd /verif/govc && GOFLAGS=-mod=mod GOPROXY=off GOSUMDB=off GOTOOLCHAIN=local go build -o /verif/bin/govc .",
